@@ -227,7 +227,7 @@ def corpus_cases():
 def run(ctx, proof, driver_ok):
     if not driver_ok:
         return {'explanation': 'model driver unavailable; no correspondence run'}
-    n = ctx.n(3000, 60000)
+    n = ctx.n(30000, 400000)
     rng = random.Random(ctx.seed * 1000003 + 101)
     judge = Judge(ctx)
     corpus = corpus_cases()
